@@ -5,7 +5,8 @@
      (assume-guarantee over the mutual recursion; documented exception: a .module switch);
  (2) KlongContext as a stack of finite maps: push / pop / lookup of the innermost binding / assignment to the scope that
      already holds the name / deletion, with whole-stack frame postconditions;
- (3) projection flattening merge_projections == "fill the holes left to right at every step"  (bounded: exhaustive over the
+ (3) projection flattening merge_projections == "fill the holes left to right at every step"  (proved: contracts/c03_merge.py; and
+     cross-checked bounded: exhaustive over the
      language's domain of at most 4 argument lists of at most 3 entries, on the real function);
  (4) a conditional evaluates its test once and exactly one of its two branches, selected by Klong truth.
 """
@@ -65,8 +66,9 @@ def build(reg, src, evaluator=True, verify_evaluator=True):
         "substitution semantics of whole bodies is a statement about the evaluator as a whole: only its binding / lookup / stack "
         "mechanism is under contract",
         "KlongContext.__getitem__ is specified for stacks without module scopes (the backtick rules of module scopes are not under contract)",
-        "merge_projections: checked exhaustively on the real function over the language's domain (<= 4 argument lists of <= 3 entries, "
-        "values parametric): bounded stand-in, complete for that domain, not an SMT proof",
+        "merge_projections: proved against the positional fill specification for any number of steps and any lengths (contracts/c03_merge.py); "
+        "the exhaustive enumeration over the language's domain (<= 4 argument lists of <= 3 entries) is kept as a bounded cross-check of the "
+        "specification's renderings and as the source of concrete failing inputs",
         "compile_expr / chain_adverbs / get_fn_arity / kg_asarray / is_number / is_empty: assumed terminating and context-neutral",
     ]
     reg.assumed_calls.update({
@@ -298,6 +300,24 @@ def build(reg, src, evaluator=True, verify_evaluator=True):
         reg.replays.append((r'KlongContext\.(__getitem__|__setitem__|__delitem__)|set_context_var', rp.replay_scopes))
         return
     reg.extra_checks.append(rp.check_merge_projections)
+
+    # projection flattening as an UNBOUNDED statement: merge_projections / has_none against the positional fill specification, loop
+    # invariants + two Lean lemmas (contracts/c03_merge.py). The enumeration above stays as the cross-check of the spec renderings and as
+    # the source of a concrete failing input when the proof no longer goes through on changed code.
+    def merge_projections_proof(ctx):
+        from pyvc.subverify import subverify
+        from contracts import c03_merge
+        keys = [c03_merge.T + 'has_none', c03_merge.T + 'merge_projections']
+        rows, sub = subverify(src, 'C03', c03_merge, keys, why='fills the holes left to right at every step (any number of steps, any lengths)', timeout_s=30)
+        for k in keys:
+            if src.find(k) is not None:
+                ctx['eng'].verified[k] = dict(sha=src.sha(src.find(k)), backend='z3/cvc5 + lean (contracts/c03_merge.py)')
+        ctx['eng'].reg.assumptions += [a for a in sub.reg.assumptions if a not in ctx['eng'].reg.assumptions]
+        from pyvc.leancheck import lean_check
+        rows += lean_check('Holes.lean', ['count_mono', 'filled_stays'])(ctx)
+        return rows
+    merge_projections_proof.__name__ = 'merge-projections-proof'
+    reg.extra_checks.append(merge_projections_proof)
 
     # "the call form equals the body with the arguments substituted" also on the compiled fast path: whatever goes wrong inside
     # compiled code (ZeroDivisionError of Python's `/` where 1%0 is :undefined, ...) must end in the interpreter path, as in the
